@@ -473,7 +473,7 @@ type presFieldSpec struct {
 	name   string
 	decl   string // o q r
 	kind   descriptorpb.FieldDescriptorProto_Type
-	oneof  int    // -1 none, else index of a real oneof
+	oneof  int // -1 none, else index of a real oneof
 	p3opt  bool
 	fp     string // "-", E, I, L
 	isMap  bool
@@ -949,6 +949,56 @@ func presNonZeroTok(tok string) bool {
 
 // presHistory runs one random op history on field fd of a fresh message of type mt and
 // returns the message (for the round-trip checks).
+// presScript, when non-nil, dictates the operations of the next presHistory call (one r-value per step; 98 = binary
+// round trip).  Used by presScriptedCorpus for the short sequences that random histories reach too rarely.
+var presScript []int
+
+// presScriptedCorpus runs, on every message-typed, list and map field of every opaque / hybrid / lazy-capable corpus
+// type, the sequences "populate, round trip, <first operation on the decoded message>": the decoded message is in
+// the state the decoder leaves (a lazy field still in wire form: presence bit set, no materialised value), and the
+// first operation on it must behave as on any other populated field.
+func presScriptedCorpus(c *Ctx, types []protoreflect.MessageType) {
+	scripts := [][]int{
+		{3, 98, 7},        // Mutable, R, Clear
+		{0, 98, 7, 98},    // Set, R, Clear, R
+		{3, 98, 9, 7},     // Mutable, R, Get, Clear
+		{3, 98, 3, 7},     // Mutable, R, Mutable, Clear
+		{3, 98, 0, 98, 7}, // Mutable, R, Set, R, Clear
+		{3, 98, 98, 7, 3}, // Mutable, R, R, Clear, Mutable
+	}
+	for _, mt := range types {
+		words := presOpaqueWords(mt.New()) != nil
+		for _, fd := range presFieldsOf(mt) {
+			if fd.IsWeak() || fd.IsExtension() {
+				continue
+			}
+			isLazy := false
+			if l, ok := fd.(interface{ IsLazy() bool }); ok {
+				isLazy = l.IsLazy()
+			}
+			if !(isLazy || (words && presFieldClass(fd) == "msg")) {
+				continue
+			}
+			for _, sc := range scripts {
+				presScript = sc
+				if presFieldClass(fd) == "list" {
+					presScript = append([]int(nil), sc...)
+					for i, r := range presScript {
+						if r == 7 {
+							presScript[i] = 8 // Clear of a list
+						} else if r == 3 {
+							presScript[i] = 0 // Append
+						}
+					}
+				}
+				presHistory(c, presFlavour(mt)+":"+string(fd.FullName()), mt, fd, len(presScript))
+				presScript = nil
+				c.Stat("hist_scripted")
+			}
+		}
+	}
+}
+
 func presHistory(c *Ctx, label string, mt protoreflect.MessageType, fd protoreflect.FieldDescriptor, nops int) (m protoreflect.Message, ok bool) {
 	m = mt.New()
 	class := presFieldClass(fd)
@@ -971,11 +1021,42 @@ func presHistory(c *Ctx, label string, mt protoreflect.MessageType, fd protorefl
 		}
 		return 0
 	}
+	// "R": a binary round trip in the middle of the history (Marshal, Unmarshal into a fresh message, carry on with the
+	// decoded message).  Presence must survive it, and the decoded message is in whatever internal state the decoder
+	// leaves (lazy fields still in wire form, presence bits set without a materialised value, ...).  Not for extensions
+	// (no resolver here) nor enum-typed fields (an unknown number of a closed enum legitimately moves to the unknown fields).
+	rtOK := !fd.IsExtension() && fd.Kind() != protoreflect.EnumKind && !(fd.IsMap() && fd.MapValue().Kind() == protoreflect.EnumKind)
+	afterRT := false
 	for k := 0; k < nops; k++ {
 		r := c.Intn(10)
+		if afterRT && c.Intn(2) == 0 {
+			// Clear as the first operation on the freshly decoded message (nothing has read the field yet)
+			r = 7
+			if class == "list" {
+				r = 8
+			}
+		}
+		afterRT = false
+		doRT := rtOK && k > 0 && c.Intn(7) == 0
+		if presScript != nil { // scripted history (presScriptedCorpus): r-values given, 98 = round trip
+			r, doRT = presScript[k], presScript[k] == 98 && rtOK
+		}
+		if doRT {
+			if b, err := (proto.MarshalOptions{AllowPartial: true}).Marshal(m.Interface()); err == nil {
+				m2 := mt.New()
+				if err := (proto.UnmarshalOptions{AllowPartial: true}).Unmarshal(b, m2.Interface()); err == nil {
+					m = m2
+					ins = append(ins, "R")
+					c.Stat("hist_roundtrip_" + class)
+					r = 99 // no further operation in this step: observe Has right after the round trip
+					afterRT = true
+				}
+			}
+		}
 		switch class {
 		case "exp", "imp":
 			switch {
+			case r == 99:
 			case r < 5:
 				v := presGenVal(c, m, fd, zmode())
 				m.Set(fd, v.v)
@@ -991,6 +1072,7 @@ func presHistory(c *Ctx, label string, mt protoreflect.MessageType, fd protorefl
 			}
 		case "msg":
 			switch {
+			case r == 99:
 			case r < 3:
 				m.Set(fd, m.NewField(fd))
 				ins = append(ins, "Sx")
@@ -1009,6 +1091,7 @@ func presHistory(c *Ctx, label string, mt protoreflect.MessageType, fd protorefl
 			}
 		case "list":
 			switch {
+			case r == 99:
 			case r < 4:
 				v := presGenElem(c, m, fd, zmode())
 				m.Mutable(fd).List().Append(v.v)
@@ -1047,6 +1130,7 @@ func presHistory(c *Ctx, label string, mt protoreflect.MessageType, fd protorefl
 			}
 		case "map":
 			switch {
+			case r == 99:
 			case r < 4:
 				id := c.Intn(4)
 				if fd.MapKey().Kind() == protoreflect.BoolKind {
@@ -1209,7 +1293,8 @@ func presRoundTrips(c *Ctx, label string, m protoreflect.Message, fd protoreflec
 // presCodecCase: Has on the canonical value (PresenceCodec.pc_has over the message codec model of
 // C03) against Has of the implementation for every field of the message type, and the numbers
 // of the top-level wire fields of Marshal(m) against the model's pc_wire.
-//   chas <schema id> <field numbers> <canonical value tokens...> | <has bits> <wire field numbers>
+//
+//	chas <schema id> <field numbers> <canonical value tokens...> | <has bits> <wire field numbers>
 func presCodecCase(c *Ctx, m protoreflect.Message) {
 	md := m.Descriptor()
 	if len(m.GetUnknown()) > 0 || msgReachesMessageSet(md, map[protoreflect.FullName]bool{}) {
@@ -1328,7 +1413,8 @@ func presOpaqueWords(m protoreflect.Message) []uint32 {
 }
 
 // flags token: one letter per field in declaration order:
-//   n not in a oneof, m oneof member (not last), l last member of its oneof
+//
+//	n not in a oneof, m oneof member (not last), l last member of its oneof
 func presFieldFlags(md protoreflect.MessageDescriptor) string {
 	var sb strings.Builder
 	for i := 0; i < md.Fields().Len(); i++ {
@@ -1538,6 +1624,7 @@ func famPres(c *Ctx) {
 	c.StatN("corpus_types", len(types))
 	c.StatN("corpus_main_types", len(mains))
 	c.StatN("corpus_opaque_types", len(opaques))
+	presScriptedCorpus(c, types)
 	for _, mt := range mains {
 		presHistOnType(c, mt, 1, nil)
 	}
